@@ -1064,3 +1064,67 @@ def case_reshape_abs_search():
 
 
 CASES["reshape_abs_search"] = case_reshape_abs_search
+
+
+def case_slice_unknown_dims():
+    """Slice(x[?,4], rows 1:3) whose output is annotated [?,4] as well: two unknown dims are not 'the same'; the Slice must stay."""
+    import onnxscript.rewriter
+    s = lambda n, v: helper.make_node("Constant", [], [n], value=numpy_helper.from_array(np.array(v, dtype=np.int64), n))
+    nodes = [s("st", [1]), s("en", [3]), s("ax", [0]), s("sp", [1]), helper.make_node("Slice", ["x", "st", "en", "ax", "sp"], ["y"])]
+    g = helper.make_graph(nodes, "g", [vi("x", TensorProto.FLOAT, [None, 4])], [vi("y", TensorProto.FLOAT, [None, 4])])
+    m = helper.make_model(g, opset_imports=[helper.make_opsetid("", 18)], ir_version=9)
+    x = np.arange(20, dtype=np.float32).reshape(5, 4)
+    return check_rewrite(m, [{"x": x}], "Slice(x[?,4], 1:3 on axis 0) with output annotated [?,4]")
+
+
+CASES["slice_unknown_dims"] = case_slice_unknown_dims
+
+
+def case_commuted_literal_tolerance():
+    """Add(c, x) / Mul(c, x) with the constant FIRST (matched by the commuted clone of the pattern x + 0 / x * 1): values within 1e-5 but not
+    within the documented tolerance (rel 1e-5 of the literal, abs 1e-8) must not be treated as 0 / 1"""
+    bad = 0
+    for op, c in (("Add", 5e-6), ("Add", -3e-6), ("Mul", 1.0 + 5e-4)):
+        nodes = [helper.make_node("Constant", [], ["c"], value=numpy_helper.from_array(np.array(c, dtype=np.float32), "c")), helper.make_node(op, ["c", "x"], ["y"])]
+        g = helper.make_graph(nodes, "g", [vi("x", TensorProto.FLOAT, [3])], [vi("y", TensorProto.FLOAT, [3])])
+        m = helper.make_model(g, opset_imports=[helper.make_opsetid("", 18)], ir_version=9)
+        bad += check_rewrite(m, [{"x": np.array([0.0, 1e-5, 2.0], np.float32)}], f"{op}({c}, x) with the constant as FIRST operand")
+    return bad
+
+
+CASES["commuted_literal_tolerance"] = case_commuted_literal_tolerance
+
+
+def case_materialize_reshape_literal_zero():
+    """Reshape(data[N,0], runtime target [-1,5]) with the output annotated [0,5]: the materialised [0,5] must be read literally
+    (allowzero=1); read as 'copy dim 0 of the input' it asks for [N,5] and fails for every N != 0."""
+    import onnxruntime as ort
+    import onnxscript.optimizer
+    g = helper.make_graph([helper.make_node("Reshape", ["x", "s"], ["y"])], "g",
+                          [vi("x", TensorProto.FLOAT, ["N", 0]), vi("s", TensorProto.INT64, [2])], [vi("y", TensorProto.FLOAT, [0, 5])])
+    m = helper.make_model(g, opset_imports=[helper.make_opsetid("", 18)], ir_version=9)
+    onnx.checker.check_model(m)
+    o = onnxscript.optimizer.optimize(m)
+    bad = 0
+    for n in (0, 3):
+        feeds = {"x": np.zeros((n, 0), np.float32), "s": np.array([-1, 5], dtype=np.int64)}
+
+        def ort_run(mm):
+            so = ort.SessionOptions()
+            so.log_severity_level = 3
+            sess = ort.InferenceSession(mm.SerializeToString(), so, providers=["CPUExecutionProvider"])
+            return sess.run(None, {k: v for k, v in feeds.items() if k in {i.name for i in mm.graph.input}})[0]
+        before = ort_run(m)
+        try:
+            after = ort_run(o)
+        except Exception as e:  # noqa: BLE001
+            print(f"Reshape(x[N,0], s=[-1,5]) with output annotated [0,5], N={n}: original gives shape {before.shape}; the optimized model fails: {str(e).splitlines()[0][:160]}")
+            bad += 1
+            continue
+        if before.shape != after.shape:
+            print(f"Reshape(x[N,0], s=[-1,5]) N={n}: shape {before.shape} before, {after.shape} after optimize()")
+            bad += 1
+    return bad
+
+
+CASES["materialize_reshape_literal_zero"] = case_materialize_reshape_literal_zero
